@@ -617,6 +617,16 @@ func (h *rHist) finalOracles() {
 			f(cl, fmt.Sprintf("bucket stable, nothing pending, but the newest decodable snapshot %s#%d was not the last one handed to the merge loop (last: %s)", rcvInstName(j), n.Seq, last))
 		}
 	}
+	// C15: a file that is not a snapshot of this database (another registered kind, an unparsable name) is never
+	// taken for one: the receiver never downloads it
+	for full, n := range h.names {
+		if n.Kind != "snap" && h.st.loads[full] > 0 {
+			desc := fmt.Sprintf("%s (kind %s) is not a snapshot file, yet the receiver downloaded it %d time(s)", full, n.Kind, h.st.loads[full])
+			h.fail("not-a-snapshot-downloaded", desc)
+			h.oracle = append(h.oracle, OracleFailure{Property: "C15", Clause: "not-a-snapshot-taken", Desc: desc,
+				Input: map[string]any{"own": h.own, "history": append([]string{}, h.log...)}})
+		}
+	}
 	for full := range h.marked {
 		if h.st.loads[full] > h.markedAt[full] {
 			h.fail08("corrupt-retried", fmt.Sprintf("%s was loaded again (%d more times) after it had been marked corrupt", full, h.st.loads[full]-h.markedAt[full]))
